@@ -13,7 +13,7 @@ func init() { register("C03", "other", checkC03) }
 
 func checkC03(w *World, r *Result) {
 	r.Explanation = "Decides structural necessary conditions on generator/typescript/types.go: CONS the struct loop is a json consumer (Exported() guard first, keys from JSONName()); FLW-C09a/AGR-C09b/AGR-C09c the key set itself (tag name part, ignore rules, flattening of embedded structs) follows encoding/json (rules shared with C09); REC-SHAPE/AGR-MD the type printer never follows a child the declaration generator does not descend into and each helper declares what it mentions (every mentioned name is declared); EXH-b typeName and generate accept the same node kinds; AGR-C03a every test of Array.Len anywhere in the module is equivalent to Len>=0 or its negation, so the alias a fixed array is printed as is the alias that is declared and all generators agree on what is a slice; AGR-C03b maps and slices are printed with `| null`; AGR-C03t a fixed array is declared as a tuple with Len elements; AGR-C03p each basic kind is printed as the JSON-compatible TypeScript primitive; AGR-C02b the Kind literals of a union are the members' local Go names; AGR-C03e the enum object lists every member; DECL-ID declaration IDs cover what the content reads; GEN-ID every name derived from a go/types Named also covers its type arguments, so two instantiations of one generic type are declared under two names; TPL-4 the constant templates are bracket-balanced. Does not decide: inhabitation for values, enum literal values, TypeScript syntax beyond balance (no TS parser in the sandbox)."
-	r.Rules = []string{"CONS", "FLW-C09a", "AGR-C09b", "AGR-C09c", "REC-SHAPE", "AGR-MD", "EXH-b", "AGR-C03a", "AGR-C03b", "AGR-C03t", "AGR-C03p", "AGR-C02b", "AGR-C03e", "DECL-ID", "GEN-ID", "TPL-4"}
+	r.Rules = []string{"CONS", "FLW-C09a", "AGR-C09b", "AGR-C09c", "REC-SHAPE", "AGR-MD", "EXH-b", "AGR-C03a", "AGR-C03b", "AGR-C03t", "AGR-C03p", "AGR-C02b", "AGR-C03e", "DECL-ID", "GEN-ID", "CONST-EXACT", "UTF8-SLICE", "TPL-4"}
 	sub := &Result{}
 	checkJSONConsumers(w, sub, "CONS")
 	for _, o := range sub.Obs {
@@ -39,6 +39,10 @@ func checkC03(w *World, r *Result) {
 	checkTSEnum(w, r)
 	declIDRule(w, r, "generator/typescript")
 	genIDRule(w, r, "generator/typescript")
+	utf8SliceRule(w, r, func(rel string) bool { return rel == "generator/typescript" || rel == "generator" })
+	if _, n := constExactRule(w, r, func(rel string) bool { return rel == "generator/typescript" || rel == "generator" }); n < 1 {
+		Undecided("CONST-EXACT: fewer enum value renderings than confirmed by hand")
+	}
 	genIDRule(w, r, "generator")
 	runTPLBalance(w, r, "generator/typescript", 2)
 	tplBalanceFor(w, r, []string{"generator/typescript.codeForEnum", "generator/typescript.codeForStruct", "generator/typescript.codeForUnion", "generator/typescript.codeForNamed", "generator/typescript.codeForArray", "generator/typescript.typeName"})
@@ -204,10 +208,35 @@ func checkTSEnum(w *World, r *Result) {
 			return true
 		}
 		format, vas := verbArgs(info, call)
-		if strings.HasPrefix(format, "%s : %s") && len(vas) >= 2 && vas[1].arg != nil && strings.HasSuffix(es(vas[1].arg), ".Const.Val().String()") {
+		if strings.HasPrefix(format, "%s : %s") && len(vas) >= 2 && vas[1].arg != nil && rendersConstVal(info, vas[1].arg, v) {
 			okPair = true
 		}
 		return true
 	})
-	r.cond(okPair, "AGR-C03e", fi.Name, "entry = <name> : <constant value>", w.Pos(loop.Pos()), "the value is Const.Val().String()", "enum entries are not `name : value of the constant`")
+	r.cond(okPair, "AGR-C03e", fi.Name, "entry = <name> : <constant value>", w.Pos(loop.Pos()), "the value printed is the Val() of the member's constant (how it is printed is decided by CONST-EXACT)", "enum entries are not `name : value of the constant`")
+}
+
+// rendersConstVal: e is a call (a method of constant.Value, or a printer taking a constant.Value) applied to
+// <member>.Const.Val() with <member> the given loop variable.
+func rendersConstVal(info *types.Info, e ast.Expr, member types.Object) bool {
+	call, ok := ast.Unparen(e).(*ast.CallExpr)
+	if !ok {
+		return false
+	}
+	found := false
+	ast.Inspect(call, func(x ast.Node) bool {
+		c, ok := x.(*ast.CallExpr)
+		if !ok {
+			return true
+		}
+		if fn := calleeOf(info, c); fn != nil && fn.FullName() == "(*go/types.Const).Val" {
+			if sel, ok := c.Fun.(*ast.SelectorExpr); ok {
+				if root := rootIdent(sel.X); root != nil && objOf(info, root) == member {
+					found = true
+				}
+			}
+		}
+		return true
+	})
+	return found
 }
